@@ -25,7 +25,9 @@ SPEC = {
             "case (2-4 free-running resource threads, random controller: clock advances, pause rounds confirmed by reading "
             "Paused, resume, fault inputs, stop midway, stop-while-paused; lock order and per-cycle values recorded by the "
             "I/O driver inside the locked closure); otherwise scripted case = generated configuration (1-4 resources, own or "
-            "shared ManualClocks, intervals incl. 0 and 1 ns, time scale, start gate, fault policy Halt/Restart, increments, "
+            "shared ManualClocks, intervals incl. 0 and 1 ns, time scale, start gate, fault policy Halt/Restart, debugger "
+            "state per resource (none / DebugControl attached idle / breakpoint armed never hit / breakpoint hit in every "
+            "cycle and continued by a client thread; also in API and stress cases; ignored by the model), increments, "
             "initial values, set/order/duplicates of shared names) x adaptive script of 8-44 (thorough 8-68) controller "
             "operations (grant one loop iteration, advance a clock, pause/resume with and without wake, stop, open the gate, "
             "hold/release a resource inside its locked cycle, fault-injection input, MeshApply/MeshSnapshot), status compared "
@@ -126,7 +128,8 @@ def extra(ctx):
     if ran_poison and not any(t.startswith("poison-") for t in tags):
         failures.append("the panic scenario (case 10) produced no verdict")
     if len(cases) >= 50:
-        for need in ("contention", "paused-go", "fault", "stress", "api", "poison-others-survive"):
+        for need in ("contention", "paused-go", "fault", "stress", "api", "debugger-armed", "stress-debugger-armed",
+                     "poison-others-survive"):
             if not tags[need] and not (need == "poison-others-survive" and any(t.startswith("poison-") for t in tags)):
                 failures.append(f"the generator produced no '{need}' case in {len(cases)} cases")
     coverage = {"case_tags": dict(sorted(tags.items()))}
